@@ -17,7 +17,7 @@ READY = ["C01", "C02", "C03", "C04", "C05", "C06", "C07", "C08", "C09", "C10", "
 NOT_APPLICABLE = {}
 
 PROPS = {}
-for _f in sorted(glob.glob(os.path.join(_here, "propdefs", "C*.py"))):
+for _f in sorted(glob.glob(os.path.join(_here, "propdefs", "[CG]*.py"))):
     _pid = os.path.basename(_f)[:-3]
     _spec = importlib.util.spec_from_file_location("propdef_" + _pid, _f)
     _m = importlib.util.module_from_spec(_spec)
